@@ -471,4 +471,263 @@ example :
         | _ => false)
      | _ => false) = true := by decide
 
+/-! ## (U) for every history: the repaired update, from accounts to the published list -/
+
+/-- what the chain guarantees about the changed accounts of one block (`chs`) relative to the parent's
+    account view (candidate_vote_tx.go, tx_processor.go changeCandidateVotes, log_compressor.go):
+    one entry per address; a registered account whose votes differ from the parent's view (or that is
+    newly registered) carries a VotesLog; only candidate accounts carry VotesLogs; a registered
+    account never loses its candidate profile. -/
+structure Consistent (accts : List Acct) (chs : List Change) : Prop where
+  nodup : (chs.map (·.addr)).Nodup
+  yes_unlogged : ∀ c ∈ chs, c.flag = Flag.yes → c.logged = false → (⟨c.addr, c.votes⟩ : Cand) ∈ registered accts
+  logged_cand : ∀ c ∈ chs, c.logged = true → c.flag ≠ Flag.none
+  none_stays : ∀ c ∈ chs, c.flag = Flag.none → ∀ v, (⟨c.addr, v⟩ : Cand) ∉ registered accts
+
+/-- the invariant of a block: one account per address, one index entry per address, the index holds
+    every registered candidate with the votes of the view, the published list is the specification. -/
+structure Inv (max : Nat) (b : Blk) : Prop where
+  accts : AcctNodup b.accts
+  index : AddrNodup b.index
+  covers : ∀ x ∈ registered b.accts, x ∈ b.index
+  top : b.top = topOf max (registered b.accts)
+
+theorem ch_eq_of_addr {chs : List Change} (h : (chs.map (·.addr)).Nodup) {x y : Change}
+    (hx : x ∈ chs) (hy : y ∈ chs) (ha : x.addr = y.addr) : x = y := by
+  induction chs with
+  | nil => simp at hx
+  | cons z zs ih =>
+    have hz := nodup_cons.mp (show Nodup (z.addr :: zs.map (·.addr)) from h)
+    rcases mem_cons.mp hx with rfl | hx' <;> rcases mem_cons.mp hy with rfl | hy'
+    · rfl
+    · exact absurd (mem_map.mpr ⟨y, hy', ha.symm⟩) hz.1
+    · exact absurd (mem_map.mpr ⟨x, hx', ha⟩) hz.1
+    · exact ih hz.2 hx' hy'
+
+def toAcct (c : Change) : Acct := ⟨c.addr, c.flag, c.votes⟩
+
+/-- the account-level step and the set-level step agree -/
+theorem registered_step {accts : List Acct} {chs : List Change} (hA : AcctNodup accts)
+    (hC : Consistent accts chs) :
+    let A' := chs.foldl (fun l c => putAcct l ⟨c.addr, c.flag, c.votes⟩) accts
+    let L := logsOf chs []
+    let U := collectUnreg chs
+    AcctNodup A' ∧ AddrNodup L ∧ ∀ x, x ∈ registered A' ↔ x ∈ nextReg (registered accts) U L := by
+  intro A' L U
+  have hA'eq : A' = (chs.map toAcct).foldl putAcct accts := by
+    simp only [A', foldl_map, toAcct]
+  have hmapnd : AcctNodup (chs.map toAcct) := by
+    unfold AcctNodup; rw [map_map]; exact hC.nodup
+  have hA' : AcctNodup A' := hA'eq ▸ acctNodup_foldl_putAcct _ hA
+  have hLnd : AddrNodup L := by
+    unfold AddrNodup
+    simp only [L, logsOf, append_nil, map_map]
+    exact Nodup.sublist (filter_sublist.map _) hC.nodup
+  have memL : ∀ x : Cand, x ∈ L ↔ ∃ c ∈ chs, c.logged = true ∧ c.addr = x.addr ∧ c.votes = x.votes := by
+    intro x; cases x
+    simp only [L, logsOf, append_nil, mem_map, mem_filter, Cand.mk.injEq]
+    constructor
+    · rintro ⟨c, ⟨hc, hl⟩, h1, h2⟩; exact ⟨c, hc, hl, h1, h2⟩
+    · rintro ⟨c, hc, hl, h1, h2⟩; exact ⟨c, ⟨hc, hl⟩, h1, h2⟩
+  have memU : ∀ a : Nat, a ∈ U ↔ ∃ c ∈ chs, c.flag = Flag.no ∧ c.addr = a := by
+    intro a
+    simp only [U, collectUnreg, mem_map, mem_filter, beq_iff_eq]
+    constructor
+    · rintro ⟨c, ⟨hc, hf⟩, h1⟩; exact ⟨c, hc, hf, h1⟩
+    · rintro ⟨c, hc, hf, h1⟩; exact ⟨c, ⟨hc, hf⟩, h1⟩
+  have memA' : ∀ y : Acct, y ∈ A' ↔ (∃ c ∈ chs, y = toAcct c) ∨ (y ∈ accts ∧ ∀ c ∈ chs, c.addr ≠ y.addr) := by
+    intro y
+    rw [hA'eq, mem_foldl_putAcct hmapnd]
+    simp only [mem_map]
+    constructor
+    · rintro (⟨c, hc, rfl⟩ | ⟨h1, h2⟩)
+      · exact Or.inl ⟨c, hc, rfl⟩
+      · exact Or.inr ⟨h1, fun c hc => h2 (toAcct c) ⟨c, hc, rfl⟩⟩
+    · rintro (⟨c, hc, rfl⟩ | ⟨h1, h2⟩)
+      · exact Or.inl ⟨c, hc, rfl⟩
+      · refine Or.inr ⟨h1, ?_⟩
+        rintro l ⟨c, hc, rfl⟩
+        exact h2 c hc
+  have hRnd : AddrNodup (registered accts) := addrNodup_registered hA
+  refine ⟨hA', hLnd, ?_⟩
+  intro x
+  have memN : x ∈ nextReg (registered accts) U L ↔
+      (x ∈ L ∨ (x ∈ registered accts ∧ ∀ l ∈ L, l.addr ≠ x.addr)) ∧ x.addr ∉ U := by
+    simp only [nextReg, mem_filterUnreg, mem_foldl_putCand hLnd]
+  rw [memN, mem_registered]
+  constructor
+  · rintro ⟨y, hy, hf, ha, hv⟩
+    rcases (memA' y).mp hy with ⟨c, hc, rfl⟩ | ⟨hyA, hno⟩
+    · simp only [toAcct] at hf ha hv
+      have hxU : x.addr ∉ U := by
+        intro hU
+        obtain ⟨c', hc', hf', ha'⟩ := (memU _).mp hU
+        have := ch_eq_of_addr hC.nodup hc' hc (ha'.trans ha.symm)
+        subst this; rw [hf] at hf'; cases hf'
+      refine ⟨?_, hxU⟩
+      cases hlog : c.logged with
+      | true => exact Or.inl ((memL x).mpr ⟨c, hc, hlog, ha, hv⟩)
+      | false =>
+        right
+        have hx : x = ⟨c.addr, c.votes⟩ := by cases x; simp_all
+        refine ⟨hx ▸ hC.yes_unlogged c hc hf hlog, ?_⟩
+        intro l hl e
+        obtain ⟨c', hc', hl', ha', _⟩ := (memL l).mp hl
+        have := ch_eq_of_addr hC.nodup hc' hc (ha'.trans (e.trans ha.symm))
+        subst this; rw [hlog] at hl'; cases hl'
+    · have hnoc : ∀ c ∈ chs, c.addr ≠ x.addr := fun c hc => ha ▸ hno c hc
+      refine ⟨Or.inr ⟨mem_registered.mpr ⟨y, hyA, hf, ha, hv⟩, ?_⟩, ?_⟩
+      · intro l hl e
+        obtain ⟨c, hc, _, ha', _⟩ := (memL l).mp hl
+        exact hnoc c hc (ha'.trans e)
+      · intro hU
+        obtain ⟨c, hc, _, ha'⟩ := (memU _).mp hU
+        exact hnoc c hc ha'
+  · rintro ⟨h, hxU⟩
+    rcases h with hxL | ⟨hxR, hnol⟩
+    · obtain ⟨c, hc, hlog, ha, hv⟩ := (memL x).mp hxL
+      have hf : c.flag = Flag.yes := by
+        cases hfl : c.flag with
+        | none => exact absurd hfl (hC.logged_cand c hc hlog)
+        | yes => rfl
+        | no => exact absurd ((memU _).mpr ⟨c, hc, hfl, ha⟩) hxU
+      exact ⟨toAcct c, (memA' _).mpr (Or.inl ⟨c, hc, rfl⟩), hf, ha, hv⟩
+    · obtain ⟨y, hyA, hf, ha, hv⟩ := mem_registered.mp hxR
+      by_cases hex : ∃ c ∈ chs, c.addr = x.addr
+      · obtain ⟨c, hc, hca⟩ := hex
+        cases hfl : c.flag with
+        | none =>
+          have hx : x = ⟨c.addr, x.votes⟩ := by cases x; simp_all
+          exact absurd (hx ▸ hxR) (hC.none_stays c hc hfl x.votes)
+        | no => exact absurd ((memU _).mpr ⟨c, hc, hfl, hca⟩) hxU
+        | yes =>
+          cases hlog : c.logged with
+          | true =>
+            exact absurd hca (hnol ⟨c.addr, c.votes⟩ ((memL _).mpr ⟨c, hc, hlog, rfl, rfl⟩))
+          | false =>
+            have hin := hC.yes_unlogged c hc hfl hlog
+            have := hRnd.eq_of_addr hin hxR hca
+            exact ⟨toAcct c, (memA' _).mpr (Or.inl ⟨c, hc, rfl⟩), hfl, hca, by rw [← this]; rfl⟩
+      · have hnoc : ∀ c ∈ chs, c.addr ≠ y.addr := fun c hc e => hex ⟨c, hc, e.trans ha⟩
+        exact ⟨y, (memA' _).mpr (Or.inr ⟨hyA, hnoc⟩), hf, ha, hv⟩
+
+/-- the account view after the changed accounts of a block have been put -/
+def acctsAfter (accts : List Acct) (chs : List Change) : List Acct :=
+  chs.foldl (fun l c => putAcct l ⟨c.addr, c.flag, c.votes⟩) accts
+
+/-- (U) one block: the repaired `Ranking` preserves the invariant for EVERY consistent block. -/
+theorem applyBlockFixed_inv (max : Nat) (hmax : 1 ≤ max) (pid : Nat) (p : Blk) (chs : List Change)
+    (hI : Inv max p) (hC : Consistent p.accts chs) :
+    ∃ b, applyBlockFixed max pid p chs [] = .ok b ∧ Inv max b ∧ b.accts = acctsAfter p.accts chs := by
+  unfold acctsAfter
+  obtain ⟨hA', hLnd, hreg⟩ := registered_step hI.accts hC
+  have hRnd := addrNodup_registered hI.accts
+  have hR'nd : AddrNodup (registered (chs.foldl (fun l c => putAcct l ⟨c.addr, c.flag, c.votes⟩) p.accts)) :=
+    addrNodup_registered hA'
+  have hNnd : AddrNodup (nextReg (registered p.accts) (collectUnreg chs) (logsOf chs [])) :=
+    (merge_facts (max := max) (U := collectUnreg chs) hRnd hLnd).2.1
+  have hperm : registered (chs.foldl (fun l c => putAcct l ⟨c.addr, c.flag, c.votes⟩) p.accts) ~
+      nextReg (registered p.accts) (collectUnreg chs) (logsOf chs []) :=
+    (perm_ext_iff_of_nodup hR'nd.nodup hNnd.nodup).mpr hreg
+  have hdye : dye p.index (logsOf chs []) = (logsOf chs []).foldl putCand p.index := dye_eq_foldl hLnd _
+  have hidxnd : AddrNodup (dye p.index (logsOf chs [])) := hdye ▸ addrNodup_foldl_putCand _ hI.index
+  -- the new index holds every registered candidate of the new view
+  have hcov : ∀ x ∈ registered (chs.foldl (fun l c => putAcct l ⟨c.addr, c.flag, c.votes⟩) p.accts),
+      x ∈ dye p.index (logsOf chs []) := by
+    intro x hx
+    have := (hreg x).mp hx
+    simp only [nextReg, mem_filterUnreg, mem_foldl_putCand hLnd] at this
+    rw [hdye, mem_foldl_putCand hLnd]
+    rcases this.1 with h | ⟨h1, h2⟩
+    · exact Or.inl h
+    · exact Or.inr ⟨hI.covers x h1, h2⟩
+  have hidx : (dye p.index (logsOf chs [])).filter
+      (fun c => flagOf (chs.foldl (fun l c => putAcct l ⟨c.addr, c.flag, c.votes⟩) p.accts) c.addr == Flag.yes) ~
+      nextReg (registered p.accts) (collectUnreg chs) (logsOf chs []) := by
+    refine Perm.trans ?_ hperm
+    apply (perm_ext_iff_of_nodup (hidxnd.nodup.filter _) hR'nd.nodup).mpr
+    intro x
+    simp only [mem_filter, beq_iff_eq]
+    constructor
+    · rintro ⟨hxi, hfl⟩
+      obtain ⟨y, hy, hya, hyf⟩ := (flagOf_eq_yes_iff hA' x.addr).mp hfl
+      have hx' : (⟨x.addr, y.votes⟩ : Cand) ∈ registered (chs.foldl (fun l c => putAcct l ⟨c.addr, c.flag, c.votes⟩) p.accts) :=
+        mem_registered.mpr ⟨y, hy, hyf, hya, rfl⟩
+      have := hidxnd.eq_of_addr (hcov _ hx') hxi rfl
+      exact this ▸ hx'
+    · intro hx
+      refine ⟨hcov x hx, ?_⟩
+      obtain ⟨y, hy, hyf, hya, _⟩ := mem_registered.mp hx
+      exact (flagOf_eq_yes_iff hA' x.addr).mpr ⟨y, hy, hya, hyf⟩
+  have hup := updateTopFixed_eq_fullSort max hmax (registered p.accts) hRnd (collectUnreg chs)
+    (logsOf chs []) hLnd (dye p.index (logsOf chs []))
+    (chs.foldl (fun l c => putAcct l ⟨c.addr, c.flag, c.votes⟩) p.accts) hidx
+  refine ⟨{ parent := pid, top := topOf max (nextReg (registered p.accts) (collectUnreg chs) (logsOf chs [])),
+             index := dye p.index (logsOf chs []),
+             accts := chs.foldl (fun l c => putAcct l ⟨c.addr, c.flag, c.votes⟩) p.accts, changes := chs }, ?_, ?_, rfl⟩
+  · unfold applyBlockFixed
+    simp only [hI.top, hup]
+  · exact ⟨hA', hidxnd, hcov, by simp only [topOf]; rw [fullSort_congr hperm]⟩
+
+/-- every block of the path is consistent with the account view it is built on -/
+def ConsistentPath : List Acct → List (List Change) → Prop
+  | _, [] => True
+  | a, chs :: rest => Consistent a chs ∧ ConsistentPath (acctsAfter a chs) rest
+
+theorem inv_genesis (max : Nat) : Inv max {} :=
+  ⟨by simp [AcctNodup], by simp [AddrNodup], by simp [registered], by simp [topOf, registered, fullSort]⟩
+
+/-- (U) FULL statement, for the repaired functions: on EVERY path of consistent blocks starting from a
+    block that satisfies the invariant (e.g. the empty genesis), no step fails and the published list
+    of the last block is the full sort of the candidates registered in its own view, cut to `max`.
+    Forks need no extra argument: a block is a function of its parent and its own changes only. -/
+theorem updateTopFixed_history (max : Nat) (hmax : 1 ≤ max) (path : List (List Change)) (b : Blk)
+    (hI : Inv max b) (hP : ConsistentPath b.accts path) :
+    ∃ e, runPathFixed max b path = .ok e ∧ Inv max e ∧ e.top = topOf max (registered e.accts) := by
+  induction path generalizing b with
+  | nil => exact ⟨b, rfl, hI, hI.top⟩
+  | cons chs rest ih =>
+    obtain ⟨hC, hrest⟩ := hP
+    obtain ⟨b', hb', hI', hacc⟩ := applyBlockFixed_inv max hmax 0 b chs hI hC
+    obtain ⟨e, he, hIe, htop⟩ := ih b' hI' (hacc ▸ hrest)
+    exact ⟨e, by simp only [runPathFixed, hb', he], hIe, htop⟩
+
+/-- non-vacuity: the tie path is consistent, and the theorem applies to it -/
+example : ConsistentPath [] [[⟨9, .yes, 30, true⟩, ⟨5, .yes, 20, true⟩, ⟨7, .yes, 20, true⟩], [⟨9, .yes, 20, true⟩]] := by
+  refine ⟨⟨by decide, ?_, ?_, ?_⟩, ⟨by decide, ?_, ?_, ?_⟩, trivial⟩ <;> simp [acctsAfter, registered, putAcct]
+
+/-- an index (or persisted list) that holds every registered candidate of a view, restricted to the
+    accounts registered in that view, enumerates exactly the registered candidates -/
+theorem filter_registered_perm {accts : List Acct} {idx : List Cand} (hA : AcctNodup accts)
+    (hI : AddrNodup idx) (hcov : ∀ x ∈ registered accts, x ∈ idx) :
+    idx.filter (fun c => flagOf accts c.addr == Flag.yes) ~ registered accts := by
+  apply (perm_ext_iff_of_nodup (hI.nodup.filter _) (addrNodup_registered hA).nodup).mpr
+  intro x
+  simp only [mem_filter, beq_iff_eq]
+  constructor
+  · rintro ⟨hxi, hfl⟩
+    obtain ⟨y, hy, hya, hyf⟩ := (flagOf_eq_yes_iff hA x.addr).mp hfl
+    have hx' : (⟨x.addr, y.votes⟩ : Cand) ∈ registered accts := mem_registered.mpr ⟨y, hy, hyf, hya, rfl⟩
+    have := hI.eq_of_addr (hcov _ hx') hxi rfl
+    exact this ▸ hx'
+  · intro hx
+    refine ⟨hcov x hx, ?_⟩
+    obtain ⟨y, hy, hyf, hya, _⟩ := mem_registered.mp hx
+    exact (flagOf_eq_yes_iff hA x.addr).mpr ⟨y, hy, hya, hyf⟩
+
+/-- (R) `restart_same_top`: if the persisted candidate list has one entry per address and holds every
+    registered candidate of the stable view with its votes (what `blockCommit` maintains), then
+    * the list published for the stable block after a restart is the specification — hence equal to
+      the list a node that did not restart holds, whenever that one is right (this part holds for the
+      start-up code AS IT IS: `restartBlk` and `restartBlkFixed` publish the same `restartTop`);
+    * with the index rebuilt from the persisted list (`restartBlkFixed`) the full invariant is
+      re-established, so by `updateTopFixed_history` every later block is right as well. -/
+theorem restart_same_top (max : Nat) (hmax : 1 ≤ max) (persist : List Cand) (stable : Blk)
+    (hA : AcctNodup stable.accts) (hP : AddrNodup persist)
+    (hcov : ∀ x ∈ registered stable.accts, x ∈ persist) :
+    (restartBlk max persist stable).top = topOf max (registered stable.accts) ∧
+    Inv max (restartBlkFixed max persist stable) := by
+  have h := restart_top_eq_fullSort max hmax persist stable.accts (filter_registered_perm hA hP hcov)
+  exact ⟨h, ⟨hA, hP, hcov, h⟩⟩
+
 end LemoProofs.C10
